@@ -3,15 +3,355 @@
 package c06
 
 import (
+	"crypto/sha256"
+	"encoding/hex"
+	"fmt"
+	"sort"
 	"testing"
+	"time"
 
-	"istio.io/istio/pilot/pkg/xds/endpoints"
+	core "github.com/envoyproxy/go-control-plane/envoy/config/core/v3"
+	"google.golang.org/protobuf/proto"
+
+	"istio.io/istio/pilot/pkg/features"
+	"istio.io/istio/pilot/pkg/model"
+	xdscore "istio.io/istio/pilot/pkg/networking/core"
+	v3 "istio.io/istio/pilot/pkg/xds/v3"
 	"istio.io/istio/pilot/test/xds"
+	"istio.io/istio/pkg/cluster"
+	"istio.io/istio/pkg/network"
+	"istio.io/istio/pkg/config/schema/kind"
+	"istio.io/istio/pkg/util/sets"
 	"verif/harness/vlib"
 )
 
-var _ = endpoints.NewEndpointBuilder
-var _ = xds.NewFakeDiscoveryServer
+// ---------------------------------------------------------------- XdsCacheImpl.Clear over the typed caches
+
+type xEntry struct {
+	typ       string
+	key       any
+	deps      []model.ConfigHash
+	cacheable bool
+}
+
+func (e xEntry) Type() string                        { return e.typ }
+func (e xEntry) Key() any                            { return e.key }
+func (e xEntry) DependentConfigs() []model.ConfigHash { return e.deps }
+func (e xEntry) Cacheable() bool                     { return e.cacheable }
+
+func genXClear(c *vlib.Collector, id *int, r *vlib.Rand) {
+	n := vlib.Scale(40, 400)
+	for i := 0; i < n; i++ {
+		*id++
+		sub := r.Sub()
+		if !c.Wanted(*id) {
+			continue
+		}
+		features.XDSCacheMaxSize = 50
+		x := model.NewXdsCache()
+		cds, eds, rds := model.VerifC06TypedParts(x)
+		if cds == nil || eds == nil || rds == nil {
+			c.Tag("xclear:typed-cache-disabled")
+			continue
+		}
+		req := &model.PushRequest{Start: time.Now()}
+		vid := uint64(0)
+		for _, typ := range []string{model.CDSType, model.EDSType, model.RDSType, model.SDSType} {
+			for k := 1; k <= 4; k++ {
+				deps := subset(sub, sub.Intn(4))
+				hs := make([]model.ConfigHash, len(deps))
+				for i, d := range deps {
+					hs[i] = cfgHash(d)
+				}
+				var key any = uint64(k)
+				if typ == model.SDSType {
+					key = fmt.Sprintf("kubernetes://secret-%d/", k)
+				}
+				vid++
+				x.Add(xEntry{typ, key, hs, !sub.Chance(10)}, req, mkRes(&val{vid, 0}))
+			}
+		}
+		edsBefore := len(eds.State().Entries)
+		cfgs := subset(sub, 1+sub.Intn(2))
+		s := sets.New[model.ConfigKey]()
+		hasPA := false
+		for _, cid := range cfgs {
+			s.Insert(universe[cid-1])
+			hasPA = hasPA || universe[cid-1].Kind == kind.PeerAuthentication
+		}
+		x.Clear(s)
+		base := time.Now().UnixNano() - int64(time.Hour)
+		part := func(name string, w *model.VerifC06Cache) string {
+			ob := observe(w.State(), base, nil)
+			for i := range ob.Store {
+				ob.Store[i].Tok = 0 // stamps are irrelevant for this oracle
+			}
+			return vlib.Pair(name, vlib.ListOf(ob.Store, entryTerm))
+		}
+		term := vlib.App("XClear", vlib.NI(*id), nlist(cfgs), vlib.B(hasPA), vlib.Nat(edsBefore),
+			vlib.List([]string{part("CDS", cds), part("EDS", eds), part("RDS", rds)}))
+		tags := []string{"xclear"}
+		if hasPA {
+			tags = append(tags, "xclear:peer-authentication")
+		}
+		c.Add(vlib.Case{ID: *id, Term: term, Tags: tags, Trivial: edsBefore == 0,
+			Sample: map[string]any{"kind": "xclear", "cfgs": cfgs, "has_pa": hasPA, "eds_before": edsBefore, "eds_after": len(eds.State().Entries)}})
+	}
+}
+
+// ---------------------------------------------------------------- H_key: warm shared cache vs no cache, real generators
+
+const hkeyConfig = `
+apiVersion: networking.istio.io/v1
+kind: ServiceEntry
+metadata: {name: se-static, namespace: ns1}
+spec:
+  hosts: [static.ns1.example.com]
+  ports: [{number: 80, name: http, protocol: HTTP}, {number: 9000, name: tcp, protocol: TCP}]
+  resolution: STATIC
+  location: MESH_INTERNAL
+  endpoints:
+  - {address: 10.0.0.1, locality: region1/zone1/sub1, network: net1, labels: {version: v1, app: a}}
+  - {address: 10.0.0.2, locality: region1/zone2/sub1, network: net1, labels: {version: v2, app: a}}
+  - {address: 10.0.0.3, locality: region2/zone1/sub1, network: net2, labels: {version: v1, app: a}}
+---
+apiVersion: networking.istio.io/v1
+kind: ServiceEntry
+metadata: {name: se-dns, namespace: ns1}
+spec:
+  hosts: [dns.ns1.example.com]
+  ports: [{number: 80, name: http, protocol: HTTP}]
+  resolution: DNS
+  endpoints:
+  - {address: a.example.org, locality: region1/zone1/sub1}
+  - {address: b.example.org, locality: region2/zone1/sub1}
+---
+apiVersion: networking.istio.io/v1
+kind: ServiceEntry
+metadata: {name: se-ns2, namespace: ns2}
+spec:
+  hosts: [only.ns2.example.com]
+  exportTo: ["."]
+  ports: [{number: 80, name: http, protocol: HTTP}]
+  resolution: STATIC
+  endpoints:
+  - {address: 10.0.2.1}
+---
+apiVersion: networking.istio.io/v1
+kind: DestinationRule
+metadata: {name: dr-static, namespace: ns1}
+spec:
+  host: static.ns1.example.com
+  trafficPolicy:
+    outlierDetection: {consecutive5xxErrors: 3}
+    loadBalancer:
+      localityLbSetting:
+        failoverPriority: ["topology.istio.io/network", "app"]
+  subsets:
+  - {name: v1, labels: {version: v1}}
+  - {name: v2, labels: {version: v2}}
+---
+apiVersion: networking.istio.io/v1
+kind: DestinationRule
+metadata: {name: dr-ns2-override, namespace: ns2}
+spec:
+  host: static.ns1.example.com
+  trafficPolicy:
+    connectionPool: {tcp: {maxConnections: 7}}
+---
+apiVersion: networking.istio.io/v1
+kind: VirtualService
+metadata: {name: vs-static, namespace: ns1}
+spec:
+  hosts: [static.ns1.example.com]
+  http:
+  - match: [{uri: {prefix: /v2}}]
+    route: [{destination: {host: static.ns1.example.com, subset: v2}}]
+  - route: [{destination: {host: static.ns1.example.com, subset: v1}}]
+---
+apiVersion: networking.istio.io/v1
+kind: VirtualService
+metadata: {name: vs-ns2, namespace: ns2}
+spec:
+  hosts: [static.ns1.example.com]
+  exportTo: ["."]
+  http:
+  - route: [{destination: {host: only.ns2.example.com}}]
+`
+
+type proxyAttrs struct {
+	Namespace, Network, Cluster, Region, Node, Version string
+	Labels                                           map[string]string
+	Router, DNSCapture, NoHBONE                      bool
+}
+
+func (a proxyAttrs) build(s *xds.FakeDiscoveryServer) *model.Proxy {
+	p := &model.Proxy{
+		Type:            model.SidecarProxy,
+		ConfigNamespace: a.Namespace,
+		ID:              "app." + a.Namespace,
+		IPAddresses:     []string{"10.9.9.9"},
+		Labels:          a.Labels,
+		Locality:        &core.Locality{Region: a.Region, Zone: "zone1", SubZone: "sub1"},
+		Metadata: &model.NodeMetadata{
+			Namespace: a.Namespace, Network: network.ID(a.Network), ClusterID: cluster.ID(a.Cluster), Labels: a.Labels,
+			IstioVersion: a.Version, NodeName: a.Node, DNSCapture: model.StringBool(a.DNSCapture), DisableHBONESend: model.StringBool(a.NoHBONE),
+		},
+	}
+	if a.Router {
+		p.Type = model.Router
+	}
+	return s.SetupProxy(p)
+}
+
+var baseAttrs = proxyAttrs{Namespace: "ns1", Network: "net1", Cluster: "Kubernetes", Region: "region1", Node: "node1", Version: "1.24.0",
+	Labels: map[string]string{"app": "a", "topology.istio.io/network": "net1"}}
+
+func variants() map[string]proxyAttrs {
+	m := map[string]proxyAttrs{}
+	v := func(name string, f func(a *proxyAttrs)) {
+		a := baseAttrs
+		a.Labels = map[string]string{}
+		for k, x := range baseAttrs.Labels {
+			a.Labels[k] = x
+		}
+		f(&a)
+		m[name] = a
+	}
+	v("same", func(a *proxyAttrs) {})
+	v("namespace", func(a *proxyAttrs) { a.Namespace = "ns2" })
+	v("labels", func(a *proxyAttrs) { a.Labels["app"] = "b" })
+	v("network", func(a *proxyAttrs) { a.Network = "net2"; a.Labels["topology.istio.io/network"] = "net2" })
+	v("cluster", func(a *proxyAttrs) { a.Cluster = "cluster2" })
+	v("locality", func(a *proxyAttrs) { a.Region = "region2" })
+	v("node", func(a *proxyAttrs) { a.Node = "node2" })
+	v("type", func(a *proxyAttrs) { a.Router = true })
+	v("version", func(a *proxyAttrs) { a.Version = "1.27.0" })
+	v("dns-capture", func(a *proxyAttrs) { a.DNSCapture = true })
+	v("no-hbone", func(a *proxyAttrs) { a.NoHBONE = true })
+	return m
+}
+
+// generateAll runs the real CDS, EDS and RDS generators for p through the server's cache and
+// returns name -> digest of the marshalled resource.
+func generateAll(s *xds.FakeDiscoveryServer, p *model.Proxy) map[string]string {
+	out := map[string]string{}
+	req := &model.PushRequest{Push: s.PushContext(), Start: time.Now(), Forced: true}
+	put := func(kind string, rs model.Resources) {
+		for _, r := range rs {
+			b, _ := proto.MarshalOptions{Deterministic: true}.Marshal(r.Resource)
+			h := sha256.Sum256(b)
+			out[kind+"/"+r.Name] = hex.EncodeToString(h[:8])
+		}
+	}
+	clusters, _ := s.ConfigGen.BuildClusters(p, req)
+	put("cds", clusters)
+	var edsNames []string
+	for _, c := range s.Clusters(p) {
+		if c.GetEdsClusterConfig() != nil {
+			edsNames = append(edsNames, c.Name)
+		}
+	}
+	w := &model.WatchedResource{TypeUrl: v3.EndpointType, ResourceNames: sets.New(edsNames...)}
+	eps, _, _ := s.Discovery.Generators[v3.EndpointType].Generate(p, w, req)
+	put("eds", eps)
+	routeNames := xdscore.ExtractRoutesFromListeners(s.Listeners(p))
+	routes, _ := s.ConfigGen.BuildHTTPRoutes(p, req, routeNames)
+	put("rds", routes)
+	return out
+}
+
+func genHKey(t *testing.T, c *vlib.Collector, id *int, r *vlib.Rand) {
+	vs := variants()
+	names := make([]string, 0, len(vs))
+	for k := range vs {
+		names = append(names, k)
+	}
+	sort.Strings(names)
+	var s *xds.FakeDiscoveryServer
+	interned := map[string]uint64{}
+	in := func(x string) uint64 {
+		if v, ok := interned[x]; ok {
+			return v
+		}
+		interned[x] = uint64(len(interned) + 1)
+		return interned[x]
+	}
+	// ordered pairs (first warms the shared cache, second is served through it)
+	for _, a := range names {
+		for _, b := range names {
+			*id++
+			if !c.Wanted(*id) {
+				continue
+			}
+			if a != "same" && b != "same" && !vlib.Thorough() && (a != b) && r.Chance(60) {
+				continue // quick tier: every variant against the base both ways + a sample of the cross pairs
+			}
+			if s == nil {
+				features.XDSCacheMaxSize = 60000
+				s = xds.NewFakeDiscoveryServer(t, xds.FakeOptions{ConfigString: hkeyConfig})
+			}
+			var warm, cold, coldFirst map[string]string
+			cacheKeys := 0
+			pan, msg := vlib.Recover(func() {
+				p1, p2 := vs[a].build(s), vs[b].build(s)
+				s.Discovery.Cache.ClearAll()
+				coldFirst = generateAll(s, p1) // fills the shared cache with p1's resources
+				cacheKeys = len(s.Discovery.Cache.Keys(model.CDSType)) + len(s.Discovery.Cache.Keys(model.EDSType)) + len(s.Discovery.Cache.Keys(model.RDSType))
+				warm = generateAll(s, p2)  // p2 served with whatever the keys let it share
+				s.Discovery.Cache.ClearAll()
+				cold = generateAll(s, vs[b].build(s)) // p2 alone
+			})
+			if pan {
+				c.Violate(vlib.Violation{ID: *id, Kind: "panic", Detail: msg, Case: []string{a, b}})
+				continue
+			}
+			keys := map[string]bool{}
+			for k := range warm {
+				keys[k] = true
+			}
+			for k := range cold {
+				keys[k] = true
+			}
+			ks := make([]string, 0, len(keys))
+			for k := range keys {
+				ks = append(ks, k)
+			}
+			sort.Strings(ks)
+			var wl, cl []uint64
+			var diff []string
+			for _, k := range ks {
+				wl = append(wl, in(k+"="+warm[k]))
+				cl = append(cl, in(k+"="+cold[k]))
+				if warm[k] != cold[k] {
+					diff = append(diff, k)
+				}
+			}
+			outputsDiffer := 0
+			for _, k := range ks {
+				if coldFirst[k] != cold[k] {
+					outputsDiffer++
+				}
+			}
+			c.Hyp("H_key: warm shared cache == no cache (CDS+EDS+RDS resources)", len(ks))
+			term := vlib.App("HKey", vlib.NI(*id), vlib.B(a == b), nlist(wl), nlist(cl))
+			tags := []string{"hkey", "hkey:first=" + a, "hkey:second=" + b}
+			if outputsDiffer > 0 {
+				tags = append(tags, "hkey:proxies-get-different-resources")
+			}
+			if cacheKeys == 0 {
+				tags = append(tags, "hkey:cache-empty-after-first")
+			}
+			// non-trivial = the two proxies legitimately receive different bytes for some resource
+			// name while the first one's resources sit in the shared cache
+			c.Add(vlib.Case{ID: *id, Term: term, Tags: tags, Trivial: outputsDiffer == 0 || cacheKeys == 0,
+				Sample: map[string]any{"kind": "hkey", "first": a, "second": b, "resources": len(ks), "warm_vs_cold_differing": diff,
+					"first_vs_second_differing": outputsDiffer, "cache_keys_after_first": cacheKeys}})
+		}
+	}
+}
 
 func genExtra(t *testing.T, c *vlib.Collector, id *int, r *vlib.Rand) {
+	genXClear(c, id, r)
+	genHKey(t, c, id, r)
 }
